@@ -14,7 +14,8 @@ Definition opt_str_eqb (a b : option string) : bool :=
 Definition entry_eqb (a b : ms_entry) : bool :=
   String.eqb (me_href a) (me_href b) && Bool.eqb (me_dir a) (me_dir b) &&
   String.eqb (me_clen a) (me_clen b) && String.eqb (me_etag a) (me_etag b) &&
-  Bool.eqb (me_lastmod a) (me_lastmod b) && Bool.eqb (me_values a) (me_values b).
+  Bool.eqb (me_lastmod a) (me_lastmod b) && Bool.eqb (me_values a) (me_values b) &&
+  String.eqb (me_ctype a) (me_ctype b).
 
 Fixpoint entries_eqb (a b : list ms_entry) : bool :=
   match a, b with
@@ -26,7 +27,8 @@ Fixpoint entries_eqb (a b : list ms_entry) : bool :=
 Definition resp_eqb (a b : response) : bool :=
   N.eqb (status a) (status b) && String.eqb (r_allow a) (r_allow b) && String.eqb (r_dav a) (r_dav b) &&
   opt_str_eqb (r_body a) (r_body b) && String.eqb (r_clen a) (r_clen b) && String.eqb (r_etag a) (r_etag b) &&
-  Bool.eqb (r_lastmod a) (r_lastmod b) && entries_eqb (r_ms a) (r_ms b) && Bool.eqb (r_leak a) (r_leak b).
+  Bool.eqb (r_lastmod a) (r_lastmod b) && entries_eqb (r_ms a) (r_ms b) && Bool.eqb (r_leak a) (r_leak b) &&
+  String.eqb (r_ctype a) (r_ctype b).
 
 Definition model_agrees (root : path) (sb : option node) (r : request) (o : response) (after : option node) : bool :=
   let '(sb', resp) := serve root sb r in
